@@ -112,8 +112,27 @@ fn u16s(v: Option<&Value>) -> Vec<u16> {
         .unwrap_or_default()
 }
 
+thread_local! {
+    /// digest of the caches last written to the trace, per parser: an unchanged cache is logged as {"same": true}
+    static LAST_CACHE: std::cell::RefCell<BTreeMap<String, String>> = const { std::cell::RefCell::new(BTreeMap::new()) };
+}
+
 fn caches(ps: &BTreeMap<String, NetflowParser>) -> Value {
-    Value::Array(ps.iter().map(|(k, p)| json!({"p": k, "tmpl": project::cache(p)})).collect())
+    Value::Array(
+        ps.iter()
+            .map(|(k, p)| {
+                let c = project::cache(p);
+                let d = fnv(c.to_string().as_bytes());
+                let same = LAST_CACHE.with(|m| m.borrow().get(k) == Some(&d));
+                if same {
+                    json!({"p": k, "same": true, "tmpl": {}})
+                } else {
+                    LAST_CACHE.with(|m| m.borrow_mut().insert(k.clone(), d));
+                    json!({"p": k, "same": false, "tmpl": c})
+                }
+            })
+            .collect(),
+    )
 }
 
 fn u32f(v: &Value, k: &str) -> u32 {
@@ -246,6 +265,7 @@ fn worker_loop(o: Opts) {
         let ev: Value = match kind {
             "reset" => {
                 ps.clear();
+                LAST_CACHE.with(|m| m.borrow_mut().clear());
                 json!({"e": "reset"})
             }
             "new" => {
@@ -254,6 +274,7 @@ fn worker_loop(o: Opts) {
                     np.allowed_versions = u16s(op.get("allowed")).into_iter().collect();
                 }
                 let a = project::allowed(&np);
+                LAST_CACHE.with(|m| m.borrow_mut().remove(&p));
                 ps.insert(p.clone(), np);
                 json!({"e": "new", "p": p, "allowed": a})
             }
